@@ -18,7 +18,7 @@ Proof. intros E. by rewrite <-(of_to_chars s1), <-(of_to_chars s2), E. Qed.
 
 (** * character classes *)
 Definition spaces (l : chars) : Prop := Forall (λ a, py_space a = true) l.
-(** characters of a printed term: label characters (letters, digits, underscore) *)
+(** characters of a printed term: label characters (anything but white space and + * | >) *)
 Definition tok_chars (l : chars) : Prop := Forall (λ a, label_char a = true) l.
 
 Local Ltac ascii_cases a := destruct a as [[] [] [] [] [] [] [] []]; try done.
@@ -196,6 +196,15 @@ Proof.
     rewrite take_while_app, drop_while_app by done. destruct ds as [|d ds]; [done|]. by rewrite Ha, Hval.
 Qed.
 
+Lemma term_chars_head p : valid_label p.1 = true →
+  ∃ a t, term_chars p = a :: t ∧ (is_alpha a = true ∨ is_digit a = true).
+Proof.
+  intros (a & t & Hs & Ha & Htok)%valid_label_chars. unfold term_chars, fmt_term. destruct (decide _).
+  - rewrite Hs. eauto.
+  - rewrite to_chars_app, Hs. destruct (pretty_pos_chars p.2) as (ds & -> & Hne & Hdig & _).
+    destruct ds as [|d ds]; [done|]. apply Forall_inv in Hdig. exists d, (ds ++ a :: t). eauto.
+Qed.
+
 Lemma proc_part_term out p : valid_label p.1 = true →
   proc_part out (term_chars p) = Some (side_add out p.1 (Z.pos p.2)).
 Proof.
@@ -322,9 +331,9 @@ Proof.
     rewrite decide_False.
     2:{ rewrite side_chars_nonempty by done. intros [Hnil|Hsign].
         - destruct (join_edge_clean _ Hnn Ht) as [(a & t & Ha & _) _]. by rewrite Hnil in Ha.
-        - destruct (term_chars <$> side_items sd) as [|t ts] eqn:E; [done|].
-          apply Forall_cons in Ht as [[Hn Htok] _]. destruct t as [|a t]; [done|].
-          apply Forall_inv in Htok. destruct ts; simpl in Hsign; injection Hsign as -> _; done. }
+        - inversion Hv as [E|p ps Hp Hps E]; [by rewrite <-E in Hnn|]. rewrite <-E, fmap_cons in Hsign.
+          destruct (term_chars_head p Hp) as (a & t & Ha & Hhead). rewrite Ha in Hsign.
+          destruct (term_chars <$> ps); simpl in Hsign; injection Hsign as -> _; by destruct Hhead. }
     rewrite side_chars_nonempty by done.
     pose proof (split_join_terms _ Hnn Ht [] [] ltac:(constructor) ltac:(constructor)) as Hsp.
     rewrite app_nil_r in Hsp. simpl in Hsp. rewrite Hsp.
